@@ -133,6 +133,10 @@ func (e *engine) dispatch(worker int, raw []byte) error {
 		return e.checkDiffLine(worker, raw)
 	case "equal":
 		return e.checkEqualLine(worker, raw)
+	case "word":
+		return e.checkWordLine(worker, raw)
+	case "enc":
+		return e.checkEncLine(worker, raw)
 	case "decode":
 		return e.checkDecodeLine(worker, raw)
 	}
